@@ -116,6 +116,26 @@ def sampler_obs(rnd):
 """
         obs.append(Ob(f"sampler.{name}", build(params, body, setup=setup), f"sampler.sunsynth: edits to {name} of the loaded Sampler are what gets saved (no part of the original file is replayed)",
                       group="sampler", shape="fixture sampler.sunsynth", symbolic=", ".join(p_[0] for p_ in params), timeout=300))
+    # the same for a file in which most envelopes are at their INITIAL values (a sampler written by this library without edits):
+    # one envelope at a time is edited, the others stay at their defaults -- each must come back as edited / as it was
+    for ei, attr in enumerate(("volume_envelope", "panning_envelope", "pitch_envelope", "effect_control_envelopes[1]")):
+        ymin = 0 if attr in ("volume_envelope", "effect_control_envelopes[1]") else -0x4000
+        body = f"""
+    syn = load_bytes(save_bytes(Synth(SMP())))
+    mod = syn.module
+    e = mod.{attr}
+    e.points = [(0, y0), (x1, y1), (x1 + 7, y0)]
+    e.enable = True
+    e.sustain_point = sus
+    s1 = snap_module(mod, groups={G})
+    m2 = rt(syn).module
+    if not same(s1, snap_module(m2, groups={G})):
+        return False
+    return m2.{attr}.points == [(0, y0), (x1, y1), (x1 + 7, y0)] and m2.{attr}.sustain_point == sus
+"""
+        obs.append(Ob(f"sampler.generated.{attr.replace('[', '').replace(']', '')}", build([R("y0", ymin, ymin + 0x8000), R("x1", 0, 60000), R("y1", ymin, ymin + 0x8000), R("sus", 0, 2)], body, setup=setup),
+                      f"a sampler file written by the library with all envelopes at their initial values: editing {attr} (points not on any coarser grid) after the load is what gets saved; the untouched envelopes stay as they were",
+                      group="sampler", shape="load(save(Synth(Sampler()))), one envelope edited", symbolic="two y values over the envelope's range, one x, sustain point", timeout=300))
     return obs
 
 
